@@ -1,7 +1,7 @@
 (* C14Theorems.v — the property theorems of C14 and nothing else.  Each is closed by
    `exact <lemma>` and followed by Print Assumptions (audited by ./check on every run). *)
 From V.lib Require Import Base.
-From V.c14 Require Import C14Spec C14Model C14WordProofs.
+From V.c14 Require Import C14Spec C14Model C14WordProofs C14ScanProofs.
 
 (* the word bit-trick of hasZeroByte is exactly "some byte of the word is zero", for every 8-byte
    word, whichever byte order the load uses *)
@@ -15,4 +15,27 @@ Example C14_has_zero_byte_ex :
   bytes_ok [1;128;255;0;1;127;2;200]%N = true /\
   has_zero_byte (word_le [1;128;255;0;1;127;2;200]%N) = true /\
   has_zero_byte (word_le [1;128;255;1;1;127;2;200]%N) = false.
+Proof. vm_compute. auto. Qed.
+
+(* the word-at-a-time scanner (word loop with hasZeroByte + odd-offset probing, then the tail loop)
+   returns exactly the byte-by-byte scan -- every position p with l[p..p+2] = 00 00 01 and p+3 < |l|,
+   in order, with length 4 iff l[p-1] = 0, and the minimum length -- for EVERY byte string, hence every
+   alignment mod 8, every stream length, start codes straddling word boundaries and the word/tail
+   hand-over; in particular it never panics and never reads outside the slice *)
+Theorem C14_scanner_eq_naive : forall l : list N,
+  bytes_ok l = true ->
+  get_start_code_positions l = Ok (naive_scan l, min_sc_len (naive_scan l)).
+Proof. exact scanner_eq_naive. Qed.
+Print Assumptions C14_scanner_eq_naive.
+
+(* the index-based naive scan is the same as the structural byte-by-byte recursion *)
+Theorem C14_naive_scan_structural : forall l : list N, nscan false 0 l = naive_scan l.
+Proof. exact nscan_naive. Qed.
+Print Assumptions C14_naive_scan_structural.
+
+(* a 3-byte start code straddling the first word boundary (bytes 6,7,8) and a 4-byte one in the tail *)
+Example C14_scanner_ex :
+  let l := [9;9;9;9;9;9;0;0;1;7;7;7;7;7;7;7;7;7;7;7;0;0;0;1;5]%N in
+  bytes_ok l = true /\ get_start_code_positions l = Ok ([(3, 9); (4, 24)]%Z, 3%Z) /\
+  naive_scan l = [(3, 9); (4, 24)]%Z.
 Proof. vm_compute. auto. Qed.
